@@ -38,6 +38,10 @@
  *        others are still delivering (whatever a receiver undoes on its way out hits the others in mid-copy).
  *        answer: rc= sig= san= to=<0|1> parked=<0|1> r0=<hex replies of connection 0> r1=... err=<hex tail>
  *
+ *   resp N STREAMHEX
+ *        child: the real pcp_response() of pcp_client.c called exactly N times on a file holding STREAM (the bytes a
+ *        receiver wrote: NUL / `\01` + text + newline); answer: res=<per call 0 | 1 (= -1)> left=<bytes unread>
+ *
  * The chroot confines every experiment (hostile names such as ../../x) to the per-case jail directory,
  * and makes the jail the root of the model's file system.
  * Built per run from /repo's working tree with ASan/UBSan.
@@ -813,6 +817,40 @@ static void op_multi(char *rest)
     free(cs); free(a.log.p); free(errlog.p);
 }
 
+/* ---- the client's reply reader alone ------------------------------------------------------- */
+static void op_resp(char *rest)
+{
+    char *ns = tok(&rest), *shex = tok(&rest);
+    if (!shex) { printf("bad-op\n"); return; }
+    int n = atoi(ns);
+    size_t len;
+    if (n < 0 || n > 64) { printf("bad-op\n"); return; }
+    unsigned char *s = unhex(shex, &len);
+    fflush(stdout);
+    pid_t pid = fork();
+    if (pid == 0) {
+        char name[] = "/tmp/pcp_resp_XXXXXX";
+        char res[65];
+        int fd = mkstemp(name);
+        if (fd < 0) _exit(97);
+        unlink(name);
+        if (len && write(fd, s, len) != (ssize_t) len) _exit(97);
+        lseek(fd, 0, SEEK_SET);
+        int nul = open("/dev/null", O_WRONLY);
+        if (nul >= 0) dup2(nul, 2);
+        for (int i = 0; i < n; i++)
+            res[i] = pcp_response(fd, "h") == 0 ? '0' : '1';
+        res[n] = 0;
+        off_t pos = lseek(fd, 0, SEEK_CUR);
+        dprintf(1, "res=%s left=%ld\n", n ? res : "-", (long) len - (long) pos);
+        _exit(0);
+    }
+    int rc, sig;
+    reap(pid, &rc, &sig);
+    if (rc != 0 || sig != 0) printf("crash rc=%d sig=%d\n", rc, sig);
+    free(s);
+}
+
 int main(int argc, char **argv)
 {
     char *line = NULL;
@@ -832,6 +870,7 @@ int main(int argc, char **argv)
         if (!strcmp(op, "sink")) op_sink(rest);
         else if (!strcmp(op, "rt")) op_rt(rest);
         else if (!strcmp(op, "multi")) op_multi(rest);
+        else if (!strcmp(op, "resp")) op_resp(rest);
         else printf("bad-op\n");
         fflush(stdout);
     }
